@@ -790,6 +790,10 @@ def _header(chk: Check) -> None:
             var = None
             par = getattr(read_call, "_parent", None)
             while par is not None and not isinstance(par, ast.stmt):
+                if isinstance(par, ast.Compare) and len(par.ops) == 1 and \
+                        isinstance(par.ops[0], (ast.NotEq, ast.Eq)) and \
+                        with_name in {x.id for x in ast.walk(par) if isinstance(x, ast.Name)}:
+                    return True         # compared where it is read
                 par = getattr(par, "_parent", None)
             if isinstance(par, ast.Assign) and isinstance(par.targets[0], ast.Name):
                 var = par.targets[0].id
